@@ -65,7 +65,7 @@ func (g *G) boolFrag() string { return g.pick("b0", "b1", "!b0", "!b1", "b0 && b
 func (g *G) staticText() string {
 	base := []string{"hello", "a b", "x <em>y</em> z", "tail", "1 & 2", "it's", "a.b", "50% off", "q?", "(p)", "C#", "no. #", "a ##", "#1 x", "a #b c", "x #y", "1 # 2 ##3"}
 	if g.O.NonASCII {
-		base = append(base, "ünï", "日本", "a😀b", "Ċ č Ġ Ĩ ĩ", "Ģ ģ Ĭ ĺ Ŀ Ľ", "Ż Ž ś ŝ Į ĥ į", "上 不 😊")
+		base = append(base, "ünï", "日本", "a😀b", "Ċ č Ġ Ĩ ĩ", "Ģ ģ Ĭ ĺ Ŀ Ľ", "Ż Ž ś ŝ Į ĥ į", "上 不 😊", "😀 lead", "𝒳y", "e\u0301 combining")
 	}
 	if g.O.AdvStatic {
 		base = append(base, `say "hi"`, `back\slash`, "tick`tock", `a\nb`, `\"`, "{x}", "# h", "a#b")
@@ -520,6 +520,22 @@ func GenFile(r *rand.Rand, o Opts, nLayouts, nPages int) *File {
 				with(p("first block")), without(),
 				{Kind: KElem, Tag: "div", Kids: []*Node{with(with(p("inner")), without()), without()}},
 				p("end"),
+			}})
+		}
+	}
+	if o.RenderHeavy {
+		// pure forwarding: a layout that wraps another layout and hands on its own children, nothing else in the block
+		for k := 0; k < nLayouts; k++ {
+			if !f.Templates[k].UsesChildren {
+				continue
+			}
+			callee := fmt.Sprintf("L%d%s", k, Args)
+			p := func(s string) *Node { return &Node{Kind: KElem, Tag: "p", Inline: &Node{Kind: KText, Parts: []Part{{Static: s}}}} }
+			f.Templates = append(f.Templates, &Template{Name: fmt.Sprintf("Fwd%d", k), Sig: Sig, UsesChildren: true, Body: []*Node{
+				{Kind: KElem, Classes: []string{"outer"}, Kids: []*Node{{Kind: KRender, Callee: callee, Kids: []*Node{{Kind: KChildren}}}}},
+			}}, &Template{Name: fmt.Sprintf("FwdPage%d", k), Sig: Sig, Body: []*Node{
+				{Kind: KRender, Callee: fmt.Sprintf("Fwd%d%s", k, Args), Kids: []*Node{p("forwarded"), {Kind: KScript, Expr: "s0"}}},
+				{Kind: KRender, Callee: fmt.Sprintf("Fwd%d%s", k, Args)},
 			}})
 		}
 	}
